@@ -49,6 +49,16 @@ def generate(seed, tier):
         pool.append(an)
         if rng.random() < 0.4:
             block['ics'].append([an, repr(float(rng.randint(-9, 9)))])
+    if S['swarm'].random() < 0.08:
+        # an alias whose name looks like the tail of a float literal (e2, E, e0) next to literals written with a bare
+        # decimal point before the exponent (2.e2, 1.E-1): substitution works on whole tokens, not on text
+        tgt = pool[rng.randrange(len(pool))]
+        al = rng.choice(['e2', 'E', 'e0', 'E1'])
+        if al not in eqn.block_vars(block):
+            block['eqs'].append([al, tgt])
+            block['eqs'].append(['lz', rng.choice(['2.e2 + %s', '1.E-1*%s + 3.e0', '%s - 1.E+1', '5.e-1*%s + 2.E1']) % tgt])
+            if rng.random() < 0.5:
+                block['eqs'].append(['lz2', '%s + 1.e0' % al])
     if S['swarm'].random() < 0.12:
         # the other side of a flow: a variable defined as the negative of another, then used where operator precedence
         # matters (power, unary minus, division) - a textual substitution must keep its value
